@@ -269,6 +269,13 @@ def _split(case):
     rng = np.random.default_rng(case['seed'])
     L, K, D, N = case['L'], case['K'], case['D'], case['N']
     data = ml.make_data(rng, 'cacgmm', L, K, D, N, regime='regular')
+    if case.get('regime') == 'rank1':
+        # well separated rank-one sources plus a little noise: the posteriors saturate at the clipping constant
+        a = rng.normal(size=(*L, K, D)) + 1j * rng.normal(size=(*L, K, D))
+        lab = rng.integers(0, K, size=(*L, N))
+        src = np.stack([a[ix][lab[ix]] for ix in np.ndindex(*L)]).reshape(*L, N, D) if L else a[lab]
+        data['y'] = src * (rng.normal(size=(*L, N, 1)) + 1j * rng.normal(size=(*L, N, 1))) + \
+            case.get('noise', 1e-3) * (rng.normal(size=(*L, N, D)) + 1j * rng.normal(size=(*L, N, D)))
     init = ml.make_init(rng, L, K, N)
     opts = dict(weight_constant_axis=tuple(case['wca']))
     if case['sam']:
@@ -293,8 +300,13 @@ def _split(case):
         return [ml.twin_record('same', None, None, kind='cacgmm', exc=e1 or e2, fp=fp, key=f'split:{case["seed"]}')]
     A = ml.model_fields('cacgmm', whole)
     B = ml.model_fields('cacgmm', cur)
-    return [ml.twin_record('same', A, B, kind='cacgmm', wca=opts['weight_constant_axis'], slack=64, fp=fp,
-                           key=f'split:{case["seed"]}')]
+    # the split run performs the same arithmetic: fine residuals, widened only by the measured rounding amplification of the
+    # uninterrupted run (initialisation moved by one ulp)
+    raw = (ml.model_arrays('cacgmm', whole), ml.model_arrays('cacgmm', cur))
+    wp, _ = call(CACGMMTrainer().fit, data['y'], initialization=ml.ulp_perturb(rng, init), iterations=sum(case['parts']), **opts)
+    amp = None if wp is None else ml.amp_of(raw[0], ml.model_arrays('cacgmm', wp))
+    return [ml.twin_record('same', A, B, kind='cacgmm', wca=opts['weight_constant_axis'], slack=64, fp=fp + f';regime={case.get("regime")}',
+                           key=f'split:{case["seed"]}', fine=-26 if amp is not None else 0, raw=raw, amp=amp)]
 
 
 def cases(tier, seed, args):
@@ -319,6 +331,11 @@ def cases(tier, seed, args):
             out.append(dict(t='split', parts=parts, L=[5] if al else [int(rng.integers(2, 4))] * nlead, K=int(rng.integers(2, 4)),
                             D=int(rng.integers(2, 5)), N=int(rng.integers(12, 24)), seed=int(rng.integers(1 << 30)),
                             wca=[-1], sam=bool(i % 2), aligner=al, saliency=bool(i % 3 == 0)))
+        # saturated posteriors (clipped at affiliation_eps in consecutive E-steps) and longer budgets
+        for i in range(6 if q else 36):
+            parts = [[4, 4, 4], [3, 9], [10, 2], [6, 6], [2, 2, 2, 2, 2, 2], [1, 11]][i % 6]
+            out.append(dict(t='split', parts=parts, L=[2] if i % 2 else [], K=2, D=6, N=int(rng.integers(20, 30)), seed=int(rng.integers(1 << 30)),
+                            wca=[-1], sam=False, aligner=False, saliency=False, regime='rank1', noise=[1e-3, 1e-2][(i // 6) % 2]))
     return out
 
 
